@@ -378,8 +378,8 @@ def inproc_layer(ctx):
 
 def run(ctx):
     import rogw.tranp.bin.transpile  # noqa
-    configs = [('pair', 'content-bound'), ('chain3', 'content-bound'), ('prefix3', 'monotone'), ('pair', 'subsecond'), ('pair', 'recycled'), ('pair', 'grammar'), ('pair', 'symlink'), ('swap3', 'content-bound')] if ctx.quick else \
-        [('pair', 'content-bound'), ('pair', 'monotone'), ('chain3', 'content-bound'), ('chain3', 'monotone'), ('chain3p', 'monotone'), ('prefix3', 'monotone'), ('diamond4', 'content-bound'), ('pair', 'subsecond'), ('chain3', 'subsecond'), ('pair', 'recycled'), ('pair', 'grammar'), ('chain3', 'symlink'), ('swap3', 'content-bound')]
+    configs = [('pair', 'content-bound'), ('chain3', 'content-bound'), ('prefix3', 'monotone'), ('pair', 'subsecond'), ('pair', 'recycled'), ('pair', 'grammar'), ('pair', 'symlink'), ('swap3', 'content-bound'), ('crlf2', 'content-bound')] if ctx.quick else \
+        [('pair', 'content-bound'), ('pair', 'monotone'), ('chain3', 'content-bound'), ('chain3', 'monotone'), ('chain3p', 'monotone'), ('prefix3', 'monotone'), ('diamond4', 'content-bound'), ('pair', 'subsecond'), ('chain3', 'subsecond'), ('pair', 'recycled'), ('pair', 'grammar'), ('chain3', 'symlink'), ('swap3', 'content-bound'), ('crlf2', 'content-bound')]
     total = {'states': 0, 'transitions': 0, 'truncations': 0}
     per = {}
     for graph, policy in configs:
